@@ -126,12 +126,12 @@ func (r *Recorder) loadKnown(path string) {
 	}
 }
 
-func (r *Recorder) Tier() string     { return r.tier }
-func (r *Recorder) Thorough() bool   { return r.tier == "thorough" }
-func (r *Recorder) Seed() uint64     { return r.seed }
-func (r *Recorder) Shard() int       { return r.shard }
-func (r *Recorder) NShards() int     { return r.nshards }
-func (r *Recorder) Mine(i int) bool  { return i%r.nshards == r.shard }
+func (r *Recorder) Tier() string    { return r.tier }
+func (r *Recorder) Thorough() bool  { return r.tier == "thorough" }
+func (r *Recorder) Seed() uint64    { return r.seed }
+func (r *Recorder) Shard() int      { return r.shard }
+func (r *Recorder) NShards() int    { return r.nshards }
+func (r *Recorder) Mine(i int) bool { return i%r.nshards == r.shard }
 func (r *Recorder) Pick(q, th int) int {
 	if r.Thorough() {
 		return th
@@ -315,27 +315,27 @@ func (r *Recorder) Health(ok bool, format string, args ...any) {
 }
 
 type fragment struct {
-	Property   string           `json:"property"`
-	Test       string           `json:"test"`
-	Shard      int              `json:"shard"`
-	NShards    int              `json:"nshards"`
-	Tier       string           `json:"tier"`
-	Seed       uint64           `json:"seed"`
-	Evals      int64            `json:"evaluations"`
-	NTEnum     int64            `json:"nontrivial_enum"`
-	NTHashed   int              `json:"nontrivial_hashed"`
-	HashFile   string           `json:"hash_file,omitempty"`
-	CapHit     bool             `json:"hash_cap_hit"`
-	Counters   map[string]int64 `json:"counters"`
-	Samples    []any            `json:"samples"`
-	Exhaustive []string         `json:"exhaustive"`
-	Assume     []string         `json:"assumptions"`
-	Notes      map[string]any   `json:"notes"`
-	Known      map[string]int64 `json:"known_findings_hit"`
+	Property   string            `json:"property"`
+	Test       string            `json:"test"`
+	Shard      int               `json:"shard"`
+	NShards    int               `json:"nshards"`
+	Tier       string            `json:"tier"`
+	Seed       uint64            `json:"seed"`
+	Evals      int64             `json:"evaluations"`
+	NTEnum     int64             `json:"nontrivial_enum"`
+	NTHashed   int               `json:"nontrivial_hashed"`
+	HashFile   string            `json:"hash_file,omitempty"`
+	CapHit     bool              `json:"hash_cap_hit"`
+	Counters   map[string]int64  `json:"counters"`
+	Samples    []any             `json:"samples"`
+	Exhaustive []string          `json:"exhaustive"`
+	Assume     []string          `json:"assumptions"`
+	Notes      map[string]any    `json:"notes"`
+	Known      map[string]int64  `json:"known_findings_hit"`
 	KnownDesc  map[string]string `json:"known_findings_desc"`
-	Completed  bool             `json:"completed"`
-	Failed     bool             `json:"failed"`
-	WallS      float64          `json:"wall_s"`
+	Completed  bool              `json:"completed"`
+	Failed     bool              `json:"failed"`
+	WallS      float64           `json:"wall_s"`
 }
 
 func (r *Recorder) flush() {
@@ -402,8 +402,9 @@ func RunReplayFile(t *testing.T, prop, path string) {
 }
 
 // StdReplayTests implements TestReplay / TestRegress for a property package.
-//   VERIF_REPLAY=<file>  : run that file; failure => the driver prints VIOLATION replay=<file>
-//   VERIF_REGRESS=<dir>  : run every *.json in dir; each must pass
+//
+//	VERIF_REPLAY=<file>  : run that file; failure => the driver prints VIOLATION replay=<file>
+//	VERIF_REGRESS=<dir>  : run every *.json in dir; each must pass
 func StdReplay(t *testing.T, prop string) {
 	if p := os.Getenv("VERIF_REPLAY"); p != "" {
 		RunReplayFile(t, prop, p)
